@@ -248,7 +248,7 @@ pub fn c13_case(d: &mut Driver, rep: &mut Report, cfg: &WCfg, es: &[(Vec<u8>, Ve
 }
 pub fn c13(ctx: &Ctx) -> Report {
     let base = Report::new("C13", "tables with one and many blocks (configurations as in C01) x sink schedules: fixed chunk sizes 1..9, per-call random prefixes with zero-length acceptance, Interrupted at call i and hard error at call i for every i (exhaustively over all write/flush calls for the first cases of each worker, random i beyond), random mixtures; every sink call with its buffer is compared with the model writer; judge: finish Ok(n) => sink bytes == perfect image and n == its length; hard error => no success; non-trivial = every scheduled case; distinct by (configuration, entries, schedule)");
-    let n = per_thread(ctx, 600, 12000);
+    let n = per_thread(ctx, 1500, 20000);
     parallel(&ctx.driver, ctx.threads, ctx.seed, base, |t, d, rng, rep| {
         for i in 0..n {
             let cfg = gen_wcfg(rng);
@@ -286,7 +286,7 @@ pub fn c13(ctx: &Ctx) -> Report {
 // ------------------------------------------------------------------------------------------- C15
 pub fn c15(ctx: &Ctx) -> Report {
     let base = Report::new("C15", "every strict prefix (length 0..len-1, size = prefix length) of each table of a family (single/multi block, compressed, with/without filter; random configurations as in C01), which includes every sink-call boundary of the writer; the prefix is opened through the real reader and the model; judge: open fails with an error (no success, no panic); the full image must open and scan to the entries added; a prefix that is itself a complete table (inner magic, F1) is the only excluded shape and is counted; non-trivial = prefix of length >= 48; distinct by (image, length)");
-    let n = per_thread(ctx, 60, 1500);
+    let n = per_thread(ctx, 160, 3000);
     parallel(&ctx.driver, ctx.threads, ctx.seed, base, |t, d, rng, rep| {
         for i in 0..n {
             let c = match gen_case(d, rep, rng, 12) {
@@ -333,7 +333,7 @@ pub fn c15(ctx: &Ctx) -> Report {
 // ------------------------------------------------------------------------------------------- C16
 pub fn c16(ctx: &Ctx) -> Report {
     let base = Report::new("C16", "sorted key sequences over a small universe (adversarial alphabet, empty key included) with exactly one order violation (equal key, or a smaller key, or a key smaller than one added two steps before) at every position x block sizes 0,1,8,9,20,64,4096 (placing a block boundary before, at and after the violation) x restart intervals 1,2,16 x both comparators; built by the real TableBuilder and the model; judge: the offending add is refused (panic or error) at exactly that call and every earlier add succeeds; sorted sequences must be accepted; non-trivial = every case; distinct by (configuration, sequence)");
-    let n = per_thread(ctx, 500, 8000);
+    let n = per_thread(ctx, 1000, 12000);
     parallel(&ctx.driver, ctx.threads, ctx.seed, base, |t, d, rng, rep| {
         for i in 0..n {
             let cmp = if rng.chance(1, 4) { CmpKind::Reverse } else { CmpKind::Bytewise };
